@@ -178,7 +178,7 @@ func c16arbitrator(c *Ctx) {
 	r := c.R
 	const fp = "(*" + load.Module + "/" + arbitratorPkg + ".filter)."
 	// duplicate-job filter first
-	r.Rule("PATH: in arbitratorImpl.Filter every other filter call is dominated by filterExistingPodMigrationJob(pod)==true")
+	r.Rule("PATH: in arbitratorImpl.Filter every other filter call is dominated by filterExistingPodMigrationJob(pod)==true, and no return that may accept the pod is reachable before it ran")
 	if fn := c.Fn(arbitratorPkg, "arbitratorImpl", "Filter"); fn != nil {
 		first := an.CallsTo(fn, false, fp+"filterExistingPodMigrationJob")
 		if len(first) != 1 {
@@ -209,8 +209,44 @@ func c16arbitrator(c *Ctx) {
 					bad = append(bad, c.InstrPos(cl))
 				}
 			}
+			// no accepting answer without the duplicate-job filter
+			reachF := an.Explore(fn, nil, nil, func(in ssa.Instruction) bool { return in == ssa.Instruction(first[0]) })
+			early := ""
+			for _, ret := range reachF.Returns() {
+				if reachF.EvalAt(ret.Results[0], ret) != an.False {
+					early = c.InstrPos(ret)
+				}
+			}
+			r.Check(early == "", "PATH", fkey(fn)+"/no-accept-before-duplicate-filter", c.InstrPos(first[0]), "no pod is accepted before the duplicate-job filter ran", "Filter can accept a pod (return at "+early+") without filterExistingPodMigrationJob having run: a pod that already has a live migration job gets a second one")
 			r.Check(len(bad) == 0 && n >= 3, "PATH", fkey(fn)+"/duplicate-filter-first", c.InstrPos(first[0]), sprintf("%d later filter calls are all dominated by the duplicate-job filter passing", n),
 				sprintf("filter calls not dominated by filterExistingPodMigrationJob()==true: %v (filter calls found: %d)", bad, n))
+		}
+	}
+
+	// the unavailable count sees inactive replicas
+	r.Rule("FLOW(unavailable input): in filterMaxMigratingOrUnavailablePerWorkload the pod list handed to getUnavailablePods (which itself tests IsPodActive && IsPodReady) comes from GetPodsForRef called with active=false, so terminating/failed replicas are still in the list and count as unavailable")
+	if fn := c.Fn(arbitratorPkg, "filter", "filterMaxMigratingOrUnavailablePerWorkload"); fn != nil {
+		var un ssa.CallInstruction
+		for _, cl := range an.Calls(fn, false) {
+			if an.ShortCallee(cl.Common()) == "getUnavailablePods" {
+				un = cl
+			}
+		}
+		key := fkey(fn) + "/unavailable-input"
+		if un == nil {
+			r.Fail("FLOW", key, c.Pos(fn.Pos()), "getUnavailablePods is no longer called")
+		} else {
+			call, idx := an.ResultOfCall(un.Common().Args[1])
+			selfTests := false
+			if g := un.Common().StaticCallee(); g != nil {
+				for _, cl := range an.Calls(g, true) {
+					if an.ShortCallee(cl.Common()) == "IsPodActive" {
+						selfTests = true
+					}
+				}
+			}
+			ok := call != nil && idx == 0 && call.Call.IsInvoke() && call.Call.Method.Name() == "GetPodsForRef" && len(call.Call.Args) == 4 && isFalseConst(call.Call.Args[3])
+			r.Check(ok || !selfTests, "FLOW", key, c.InstrPos(un), "the list includes inactive replicas (active=false)", "the list handed to getUnavailablePods is pre-filtered to active pods (or does not come from GetPodsForRef(.., false)): terminating and failed replicas are no longer counted as unavailable, so a workload at its limit still passes")
 		}
 	}
 
